@@ -27,7 +27,7 @@ TECHNIQUE = (
     "interruptions, on the real RunEngine; numbering oracle over the emitted documents"
 )
 LEVEL_TEXT = (
-    "For every successfully closed run the emitted event/event_page/stream_datum/stop documents are re-read: per stream the "
+    "For every closed run the emitted event/event_page/stream_datum/stop documents are re-read: per stream the "
     "seq_nums in emission order must count 1,2,3,... and end at num_events (missing key = 0); a seq_num may be emitted again "
     "only by the replay of the very message (save, or collect of a flyer) that emitted it before; monitor and interruption "
     "events and stream datums from collect must never reuse a seq_num; stream_datum seq_num ranges must tile [1, num_events+1) "
@@ -35,22 +35,23 @@ LEVEL_TEXT = (
 )
 LEVEL_NOTE = (
     "Exploration on fake devices and a harness-owned virtual-time loop. Events of a flyer whose 'collect' message is replayed "
-    "after a rewind are accepted under re-used seq_nums (the statement does not list them among the never-replayed events); "
-    "runs that did not end with exit_status 'success' (plan failed through one of the known engine defects) are not judged."
+    "after a rewind are accepted under re-used seq_nums (the statement does not list them among the never-replayed events). "
+    "Every run that got a stop document is judged, whatever its exit_status."
 )
 RULE = (
     "case = (plan, devices incl. per-detector frame progressions, record_interruptions, stages with pause/defer/suspend and "
-    "signal-put injections). Sweep: one pause+resume and two suspend variants at every callback boundary of 4 plans (every third "
-    "boundary, rotating with the seed, in the quick tier); Hypothesis: "
+    "signal-put injections). Sweep: pause+resume, two suspend variants, pause+stop, pause+abort and suspend+foreign stop at every "
+    "callback boundary of 4 plans (every fourth boundary, rotating with the seed, in the quick tier); Hypothesis: "
     "generated plans (1-2 runs; bundled points, monitors, flyer collects, stream-detector collects, step-scanned stream "
-    "detector) with 1-3 interruptions and 0-4 puts. Non-trivial: at least one rewind (interruption with a non-empty replay "
-    "cache) happened in a judged run after a monitor/interruption/flyer/stream-asset stream of that run had started. "
+    "detector) with 1-3 interruptions, 0-4 puts and, in 3 of 8 cases, an abort/stop/halt (stage decision or foreign request). Non-trivial: at least one rewind (interruption with a non-empty replay "
+    "cache) happened in a judged run after a monitor/interruption/flyer/stream-asset stream of that run had started, or a run "
+    "ended before a rewound save/collect was executed again. "
     "Distinct = canonical JSON."
 )
 ASSUMPTIONS = [
     "requests and signal updates arrive at boundaries between event-loop callbacks",
     "stream detectors publish [published, index) on collect_asset_docs(index) like ophyd-async's StandardDetector",
-    "only pause/resume, deferred pause and suspend/release schedules (no abort/stop/halt), per the property's quantifier",
+    "pause/deferred pause/suspend schedules; a paused or replaying plan may also be ended by abort/stop/halt",
 ]
 
 # ------------------------------------------------------------------------------------------
@@ -84,6 +85,31 @@ def stream_classes(case, obs):
     return cls
 
 
+IMPLICIT = {"stage", "unstage", "monitor", "unmonitor", "subscribe", "unsubscribe"}
+# what really empties the engine's message cache (close_run does not: known defect F1)
+CACHE_RESETS = IMPLICIT | {"checkpoint", "clear_checkpoint", "rewindable"}
+UNCACHED = IMPLICIT | {"pause", "open_run", "close_run", "install_suspender", "remove_suspender", "_start_suspender"}
+
+
+def _since_reset(obs, r):
+    """Messages executed since the engine last emptied its message cache before hook index r (newest
+    first).  Follows the code as it is, not the property: close_run does not empty the cache (F1), and
+    an implicit-checkpoint message that was still in flight when the interruption hit may have been
+    cancelled before it emptied the cache (F18)."""
+    out = []
+    i = min(r, len(obs.hook)) - 1
+    first = True
+    while i >= 0:
+        m = obs.hook[i]["msg"]
+        if m.command in CACHE_RESETS and not (first and m.command in IMPLICIT):
+            break
+        first = False
+        if m.command not in UNCACHED:
+            out.append(m)
+        i -= 1
+    return out
+
+
 def rewinds(obs):
     """Hook indices at which the engine rewound (resumable interruption with something to replay)."""
     _, info = replay_model(obs)
@@ -91,10 +117,22 @@ def rewinds(obs):
     for it in info["interruptions"]:
         if not it.get("resumable", True):
             continue
-        # the real cache also survives close_run (known defect F1): count that as a possible rewind
-        closed = "close_run" in e1oracles._cmds_since_checkpoint(obs, it["hook_index"])
-        if it["cache_len"] > 0 or closed:
+        if it["cache_len"] > 0 or _since_reset(obs, it["hook_index"]):
             out.append(it["hook_index"])
+    return out
+
+
+def unretaken(obs, rws):
+    """[(rewind hook index, msg)]: data-taking messages (save / collect) that had been executed since the
+    engine's last cache reset when it rewound, and that were never executed again afterwards (the plan
+    was ended by abort/stop/halt or an exception before the replay reached them)."""
+    out = []
+    for r in rws:
+        pend = [m for m in _since_reset(obs, r) if m.command in ("save", "collect")]
+        later = {id(h["msg"]) for h in obs.hook[r:]}
+        for m in pend:
+            if id(m) not in later:
+                out.append((r, m))
     return out
 
 
@@ -114,6 +152,8 @@ def numbering(case, obs):
     classes = stream_classes(case, obs)
     record = bool((case.get("re") or {}).get("record_interruptions"))
     rws = rewinds(obs)
+    lost = unretaken(obs, rws)
+    open_keys = [h["msg"].run for h in obs.hook if h["msg"].command == "open_run"]  # open_run is never replayed
     runs, _ = check_docs(obs.docs, idle=False, validate=False)
     hook_of = [d[2] for d in obs.docs]
     pos = {}
@@ -121,14 +161,21 @@ def numbering(case, obs):
         pos[id(item[1])] = order
     info = {"judged_runs": 0, "skipped_runs": 0, "nontrivial": False, "streams": set(), "rewinds": len(rws), "labels": set()}
 
-    for run in runs.values():
-        if run.stop is None or run.stop.get("exit_status") != "success":
+    for ri, run in enumerate(runs.values()):
+        if run.stop is None:
             info["skipped_runs"] += 1
             continue
         info["judged_runs"] += 1
+        info["labels"].add("exit:" + str(run.stop.get("exit_status")))
         h_start = hook_of[pos[id(run.start)]]
         h_stop = hook_of[pos[id(run.stop)]]
         run_rws = [r for r in rws if h_start <= r <= h_stop]
+        run_key = open_keys[ri] if ri < len(open_keys) else None
+        # the run ended (abort/stop/halt, exception) before a rewound data point of it was taken again
+        cut_short = any(h_start <= r <= h_stop and m.run == run_key for r, m in lost)
+        if cut_short:
+            info["labels"].add("terminated_before_retake")
+            info["nontrivial"] = True
         ne = run.stop.get("num_events", None)
         if not isinstance(ne, dict):
             ne = {}
@@ -144,7 +191,7 @@ def numbering(case, obs):
         def feats(stream):
             klass = classes.get(stream, "unknown")
             live = any(desc_hook.get(stream, 10**9) <= r for r in run_rws)
-            f = {"stream_class": klass, "rewind_after_stream_start": live}
+            f = {"stream_class": klass, "rewind_after_stream_start": live, "terminated_before_retake": cut_short}
             if klass == "interruptions":
                 # the feature names of the known-findings entry F5 (owned by C40): recording on and a
                 # non-empty rewind while the recording run was open
@@ -218,7 +265,7 @@ def numbering(case, obs):
                 )
         for stream in ne:
             if stream not in by_stream and ne[stream] != 0:
-                fails.append(("num_events_unknown_stream", f"num_events names stream {stream!r} ({ne[stream]}) which has no descriptor", {"stream_class": classes.get(stream, "unknown"), "rewind_after_stream_start": False}))
+                fails.append(("num_events_unknown_stream", f"num_events names stream {stream!r} ({ne[stream]}) which has no descriptor", feats(stream)))
 
         # ---- stream datums: per (stream, data key) the seq_num ranges tile [1, N+1) in emission order
         per_key = {}
@@ -293,7 +340,7 @@ def oracle(case, obs, res):
     res.classes.append(f"rewinds:{min(info['rewinds'], 3)}")
     res.classes.append(f"judged_runs:{info['judged_runs']}")
     if info["skipped_runs"]:
-        res.classes.append("run_not_success(skipped)")
+        res.classes.append("run_without_stop(skipped)")
     for s in sorted(info["streams"]):
         res.classes.append("stream:" + s)
     for lab in sorted(info["labels"]):
@@ -466,8 +513,21 @@ def sweep_cases(names, step=1, offset=0):
     for name in names:
         n = sweep_handles(name)
         for k in range(offset, n + 2, step):
-            for kind in ("pause", "suspend", "suspend_pre"):
+            for kind in ("pause", "suspend", "suspend_pre", "pause_stop", "pause_abort", "suspend_stop"):
                 c, puts1 = sweep_base(name)
+                if kind in ("pause_stop", "pause_abort"):
+                    # the run is ended instead of resumed: rewound points are never taken again
+                    c["stages"][0]["inj"].append({"at": k, "do": "pause"})
+                    c["stages"].append({"do": kind[6:]})
+                    yield c
+                    continue
+                if kind == "suspend_stop":
+                    # a foreign stop while the suspension is being released / the replay is running
+                    c["stages"][0]["inj"].append({"at": k, "do": "suspend", "release_after": 0.2, "pre": None, "post": None})
+                    c["stages"][0]["inj"].append({"at": k + 9 + (k % 7), "do": "stop"})
+                    c["stages"].append({"do": "resume"})
+                    yield c
+                    continue
                 if kind == "pause":
                     inj = {"at": k, "do": "pause"}
                 elif kind == "suspend":
@@ -619,8 +679,18 @@ def cases():
         if sigs:
             for _ in range(draw(st.integers(0, 4))):
                 stages[0]["inj"].append(put())
+        # in a quarter of the cases the plan is ended instead of (or after being) resumed: a stage decision
+        # abort/stop/halt while paused, or a foreign abort/stop/halt some callbacks into a stage
+        ender = choice([None, None, None, None, None, "decision", "decision", "foreign"])
+        end_stage = draw(st.integers(0, 1))
+        if ender == "foreign":
+            stages[0]["inj"].append({"at_msg": draw(st.integers(0, 40)), "plus": draw(st.integers(0, 30)), "do": choice(["abort", "stop", "halt"])})
         for i in range(4):
             s = {"do": "resume"}
+            if ender == "decision" and i == end_stage:
+                s = {"do": choice(["abort", "stop", "stop", "halt"])}
+                stages.append(s)
+                continue
             inj = []
             if i < 2 and chance(0.35):
                 ij = interruption()
@@ -646,11 +716,11 @@ def cases():
 
 def run(ctx):
     names = list(SWEEP)
-    step = ctx.pick(3, 1)
+    step = ctx.pick(4, 1)
     cases_ = list(sweep_cases(names, step=step, offset=ctx.seed % step))
     ctx.sweep(cases_, check_case)
     ctx.extra["sweep_cases"] = len(cases_)
-    ctx.bound = "one pause+resume and two suspend variants at every %scallback boundary of the 4 sweep plans" % ("third " if ctx.quick else "")
+    ctx.bound = "pause+resume, 2 suspend variants, pause+stop, pause+abort, suspend+foreign stop at every %scallback boundary of the 4 sweep plans" % ("fourth " if ctx.quick else "")
     ctx.hyp(cases, check_case, max_examples=ctx.pick(1200, 30000), tag="c05")
 
 
